@@ -6,6 +6,7 @@
   (`sample_list._average_2tuple` resp. `reduce(vmap(value_and_grad(ham))(samples.at(p).samples))`).
 -/
 import NiftyVerif.Lemmas.Kl
+import NiftyVerif.Lemmas.KlMetric
 import NiftyVerif.Model.Vi
 import Mathlib.Analysis.Calculus.FDeriv.Add
 import Mathlib.Analysis.Calculus.FDeriv.Prod
@@ -81,6 +82,14 @@ theorem kl_grad_constants {E₁ E₂ : Type} [NormedAddCommGroup E₁] [NormedSp
   have h := kl_grad_avg H H' hH rs (x, c)
   show HasFDerivAt (klValue H rs ∘ fun y : E₁ => (y, c)) _ x
   exact h.comp x (hasFDerivAt_prodMk_left (𝕜 := ℝ) x c)
+
+/-- **kl_metric_posDef**: the sampled KL metric — the average of the per-sample Hamiltonian metrics `L_i + 1` with positive
+    semidefinite likelihood metrics `L_i` — is positive definite for every non-empty sample list (a valid curvature for
+    the Newton-CG minimiser; its CG solves are well posed) -/
+theorem kl_metric_posDef {n : Type} [Fintype n] [DecidableEq n] (Ls : List (Matrix n n ℝ))
+    (hL : ∀ L ∈ Ls, L.PosSemidef) (hne : Ls ≠ []) :
+    (((Ls.length : ℝ)⁻¹) • (Ls.map (fun L => L + 1)).sum).PosDef :=
+  Kl.avg_metric_posDef Ls hL hne
 
 /-! ### list logic of constants / point estimates (`partial_insert_and_remove`) -/
 
